@@ -200,6 +200,29 @@ pub fn gen_prog_with(r: &mut Rng, mode: Mode, more_untracked: bool) -> Prog {
                 let b = *r.pick(&biased);
                 e = Expr::Add(Box::new(Expr::Rd(true, a)), Box::new(Expr::Add(Box::new(Expr::Rd(true, b)), Box::new(e))));
             }
+            // gated double read with a memo of the same source in between (s, m(s), s again): the shape in which a
+            // subscriber can be entered twice into s's subscriber set (duplicate-edge bookkeeping)
+            if r.chance(1, 10) {
+                let cands: Vec<(usize, usize)> = defs
+                    .iter()
+                    .enumerate()
+                    .filter(|(i, d)| matches!(d, Def::Memo(_)) && readable.contains(i))
+                    .flat_map(|(i, d)| {
+                        let mut v = vec![];
+                        if let Def::Memo(b) = d {
+                            reads(b, &mut v);
+                        }
+                        v.into_iter().filter(|x| matches!(defs[*x], Def::Sig(_))).map(move |x| (i, x)).collect::<Vec<_>>()
+                    })
+                    .collect();
+                let gates: Vec<usize> = readable.iter().copied().filter(|i| matches!(defs[*i], Def::Sig(_))).collect();
+                if !cands.is_empty() && !gates.is_empty() {
+                    let (m, s) = *r.pick(&cands);
+                    let g = *r.pick(&gates);
+                    let rd = |i: usize| Box::new(Expr::Rd(true, i));
+                    e = Expr::Ite(rd(g), Box::new(Expr::Add(rd(s), Box::new(Expr::Add(rd(m), rd(s))))), Box::new(e));
+                }
+            }
             if let (Some(o), 0) = (out, j) {
                 e = Expr::Wr(o, Box::new(e));
                 written_by_stage.push(o);
@@ -306,7 +329,7 @@ fn gen_selector_case(r: &mut Rng, mode: Mode) -> (Vec<&'static str>, Vec<String>
         lines.push(format!("sig {v}"));
     }
     let sigs: Vec<usize> = (0..nsig as usize).collect();
-    let mut push = |defs: &mut Vec<Def>, cur: &mut Vec<i64>, lines: &mut Vec<String>, kw: &str, d: Def| {
+    let push = |defs: &mut Vec<Def>, cur: &mut Vec<i64>, lines: &mut Vec<String>, kw: &str, d: Def| {
         if let Def::Memo(b) | Def::Eff(b) = &d {
             lines.push(format!("{kw} {}", show_expr(b)));
         }
@@ -352,7 +375,7 @@ fn gen_selector_case(r: &mut Rng, mode: Mode) -> (Vec<&'static str>, Vec<String>
     let mut moved = false;
     let (mut selfirst, mut sellate, mut nonfifo) = (false, false, false);
     let selection = |defs: &[Def], cur: &[i64]| eval_pure(defs, cur, &src);
-    let mut add_reader = |r: &mut Rng, defs: &mut Vec<Def>, cur: &mut Vec<i64>, lines: &mut Vec<String>, moved: bool,
+    let add_reader = |r: &mut Rng, defs: &mut Vec<Def>, cur: &mut Vec<i64>, lines: &mut Vec<String>, moved: bool,
                           read_while_selected: &mut Vec<bool>, ever_read: &mut Vec<bool>| {
         let now = selection(defs, cur);
         // biased to the key that is selected right now
@@ -395,7 +418,7 @@ fn gen_selector_case(r: &mut Rng, mode: Mode) -> (Vec<&'static str>, Vec<String>
         }
         moved
     };
-    let mut note_selection = |defs: &[Def], cur: &[i64], ever_selected: &mut Vec<bool>| {
+    let note_selection = |defs: &[Def], cur: &[i64], ever_selected: &mut Vec<bool>| {
         let now = eval_pure(defs, cur, &src);
         if now >= 0 && (now as usize) < k {
             ever_selected[now as usize] = true;
@@ -460,6 +483,11 @@ fn gen_selector_case(r: &mut Rng, mode: Mode) -> (Vec<&'static str>, Vec<String>
     (tags, lines)
 }
 
+/// F-C02-3 (repaired by /repo commit 2b9d3c6, hooks/fix-c02-3.patch): before the repair a write through `WriteSignal` /
+/// `ArcWriteSignal` drained the signal's subscriber set, so an effect that consumed a notification while paused was never
+/// notified again.  `false` keeps split handles out of cases with pause / resume ops (needed only on a tree without the repair).
+pub const SPLIT_WITH_PAUSE: bool = true;
+
 pub fn gen(mode: Mode, seed: u64, n: usize, path: &str, _tier: &str) -> std::io::Result<()> {
     let mut r = Rng::new(seed ^ (mode as u64 + 1) * 0x5151);
     let mut f = std::io::BufWriter::new(std::fs::File::create(path)?);
@@ -486,6 +514,9 @@ pub fn gen(mode: Mode, seed: u64, n: usize, path: &str, _tier: &str) -> std::io:
         }
         let p = gen_prog_with(&mut r, mode, acc.is_some());
         let mut tags = p.tags.clone();
+        let has_eff = p.defs.iter().any(|d| matches!(d, Def::Eff(_)));
+        let lifecycle = has_eff && r.chance(1, 4);
+        let acc = if lifecycle && !SPLIT_WITH_PAUSE { acc.map(|n| n - (n / 3 % 4) * 3) } else { acc };
         if acc.is_some() {
             tags.retain(|t| *t != "plain");
             tags.push("acc");
@@ -505,9 +536,7 @@ pub fn gen(mode: Mode, seed: u64, n: usize, path: &str, _tier: &str) -> std::io:
             p.defs.iter().enumerate().filter(|(_, d)| matches!(d, Def::Memo(_) | Def::Sig(_))).map(|x| x.0).collect();
         let memos: Vec<usize> = p.defs.iter().enumerate().filter(|(_, d)| matches!(d, Def::Memo(_))).map(|x| x.0).collect();
         let leaves: Vec<usize> = p.coarse.iter().map(|c| c.0).collect();
-        let has_eff = p.defs.iter().any(|d| matches!(d, Def::Eff(_)));
         let effs: Vec<usize> = p.defs.iter().enumerate().filter(|(_, d)| matches!(d, Def::Eff(_))).map(|x| x.0).collect();
-        let lifecycle = has_eff && r.chance(1, 4);
         if lifecycle {
             tags.push("lifecycle");
         }
